@@ -25,6 +25,7 @@ type c12Desc struct {
 	N      int     `json:"n"`
 	Random int     `json:"random,omitempty"` // >0: that many random interruption strings instead of all 3^(n+1)
 	Kind   string  `json:"kind"`             // interrupt | mismatch
+	Big    int     `json:"big,omitempty"`    // >0: the first block's data has this many bytes (sections around the default 8 MiB read limit)
 }
 
 // c12Session abstracts "a file that can be opened for writing again and again".
@@ -94,6 +95,14 @@ func runC12(t *mon.T, raw json.RawMessage) {
 	cfg := d.Cfg
 	content := gen.MakeContent(r, gen.ContentOpts{MinBlocks: d.N, MaxBlocks: d.N, MinRoots: 0, MaxRoots: 3, Synthetic: true, Block: gen.BlockOpts{MaxSize: 150}})
 	blks := content.Blocks
+	if d.Big > 0 && len(blks) > 0 {
+		big := make([]byte, d.Big)
+		for i := 0; i < len(big); i += 4093 {
+			big[i] = byte(i>>12) | 1
+		}
+		blks[0].Data = big // writers put no bound on the block size; a resumed session must cope with what it wrote
+		t.Cover("big-section")
+	}
 	if len(blks) >= 2 && r.Intn(2) == 0 {
 		blks[len(blks)-1] = blks[0] // re-put of an earlier block: must stay de-duplicated across a reopen
 	}
@@ -297,6 +306,11 @@ func genC12(g *mon.G) {
 					g.Emit(c12Desc{Seed: r.Int63(), API: api, Cfg: cfg, N: n, Kind: "interrupt"})
 				}
 			}
+			if !cfg.AllowDup && !cfg.WholeCID && cfg.DataPad <= 9 && !cfg.StoreID {
+				for _, big := range []int{8<<20 - 36, 8<<20 + 1} { // a section of exactly / just over the default section limit of the readers
+					g.Emit(c12Desc{Seed: r.Int63(), API: api, Cfg: cfg, N: 2, Kind: "interrupt", Big: big})
+				}
+			}
 			for rep := 0; rep < g.Pick(4, 40); rep++ {
 				g.Emit(c12Desc{Seed: r.Int63(), API: api, Cfg: cfg, N: 1 + r.Intn(4), Kind: "mismatch"})
 			}
@@ -312,10 +326,10 @@ func init() {
 	Register(&mon.Check{
 		ID:          "C12",
 		Level:       "exploration",
-		Rule:        "interrupt cases: for a put list of n blocks (n ≤ 3 quick / ≤ 5 thorough) ALL 3^(n+1) strings over {continue, Discard+reopen, Finalize+reopen} at the n+1 operation boundaries (random strings for n = 6..15), x 6 (quick) / 10 (thorough) option configurations x {blockstore.OpenReadWrite on a file, storage.OpenReadableWritable on a memfile}; final bytes must equal the uninterrupted session's. mismatch cases: every single-field mismatch (root replaced/removed/added, data padding larger/smaller, wrong version) on a finalized and on an unfinalized file must be rejected with the file byte-identical afterwards",
+		Rule:        "interrupt cases: for a put list of n blocks (n ≤ 3 quick / ≤ 5 thorough) ALL 3^(n+1) strings over {continue, Discard+reopen, Finalize+reopen} at the n+1 operation boundaries (random strings for n = 6..15), x 6 (quick) / 10 (thorough) option configurations x {blockstore.OpenReadWrite on a file, storage.OpenReadableWritable on a memfile}; final bytes must equal the uninterrupted session's; some sessions hold one section of exactly / just over 8 MiB (the readers' default section limit, which does not bind writers). mismatch cases: every single-field mismatch (root replaced/removed/added, data padding larger/smaller, wrong version) on a finalized and on an unfinalized file must be rejected with the file byte-identical afterwards",
 		Assumptions: []string{"byte equality only; permuted roots are not a mismatch (documented)", "a storage CAR has no Discard: dropping the object models it"},
 		Gen:         genC12,
 		Run:         runC12,
-		MinCover:    map[string]int{"interruption-strings": 1000, "interrupt:discard": 500, "interrupt:finalize": 500, "mismatch:root-replaced": 10, "mismatch:root-added": 10, "mismatch:data-padding-larger": 10, "mismatch:wrong-version": 10, "api:blockstore": 10, "api:storage": 10},
+		MinCover:    map[string]int{"interruption-strings": 1000, "interrupt:discard": 500, "interrupt:finalize": 500, "mismatch:root-replaced": 10, "mismatch:root-added": 10, "mismatch:data-padding-larger": 10, "mismatch:wrong-version": 10, "api:blockstore": 10, "api:storage": 10, "big-section": 4},
 	})
 }
